@@ -48,9 +48,16 @@ MANIFEST = {
             "C09_view_top_level, and the tree-level C09_view_conv over all ten structural arms of conv), flag V is now a "
             "redundant cross-check, and C09_parse_keeps_comments_text_total / C09_text_to_text_lib_total / _cli_total "
             "start from the text with only the exclusion forest_no_empty_container and the formatter-half stmt_ok_parsed "
-            "as hypotheses; PARTIAL: atoms_ok of "
-            "the parser's output is not derived (comment_ok forbids a bare CR inside a comment, which the grammar admits); "
-            "both findings stay open; blots-wasm is not built natively, its loop is mirrored in harness/src/s_c0809.rs; "
+            "as hypotheses; round ATOMS: the COMMENT part of atoms_ok is derived from the parser model for the weaker "
+            "predicate comment_ok_cr (`//` + LF-free text not ending in CR; a bare CR inside is admitted; ScanFmt / DriverText "
+            "re-proved for it: C09_fmtd_wf_doc_cr, C09_*_driver_text_comments_cr, C09_atoms_ok_split, "
+            "C09_parsed_program_comments_ok_cr) and C09_text_to_text_lib_closed / _cli_closed start from the text with the two "
+            "exclusions forest_no_empty_container and `no comment pair ends in CR` (new finding C09-comment-trailing-cr: "
+            "`// a<CR>` + the emitted LF re-reads as `// a`, scanner-level witness C09_comment_trailing_cr_refuted) and "
+            "stmt_rest_ok; PARTIAL: the names / keys part of atoms_ok (names_ok: identifiers are plain, static keys key_ok) "
+            "is still a hypothesis (not connected to PegIdent.v), as are the expr_to_source texts (opaque_texts_neutral) "
+            "and `a comment statement has no second comment`; "
+            "the findings stay open; blots-wasm is not built natively, its loop is mirrored in harness/src/s_c0809.rs; "
             "no axioms",
     "design_ref": "DESIGN.md section 6 C09; notes/C09.md",
 }
